@@ -100,16 +100,30 @@ def parse_select(sql):
   return {'tables': tables, 'conds': conds, 'sel': sel}
 
 
+AGG_NAME = {'sum': 'Sum', 'min': 'Min', 'max': 'Max', 'count': 'Count'}
+
+
+def agg_rule_text(name, r, op):
+  """the last head term is aggregated: Q(k1, .., kn, v? Op= e) distinct :- body"""
+  keys, val = r['head'][:-1], r['head'][-1]
+  head = ', '.join([term_text(t) for t in keys] + ['v? %s= %s' % (AGG_NAME[op], term_text(val))])
+  return '%s(%s) distinct :- %s;' % (name, head, ', '.join('%s(%s)' % (a['pred'], ', '.join(term_text(t) for t in a['args'])) for a in r['body']))
+
+
 def job(j):
-  """j = (rules, db) -> real observations"""
-  rules, db = j
-  text = '@Engine("sqlite");\n' + '\n'.join(rule_text('Q', r) for r in rules) + '\n'
+  """j = (rules, db[, aggregate op]) -> real observations"""
+  rules, db = j[0], j[1]
+  op = j[2] if len(j) > 2 else None
+  if op:
+    text = '@Engine("sqlite");\n' + '\n'.join(agg_rule_text('Q', r, op) for r in rules) + '\n'
+  else:
+    text = '@Engine("sqlite");\n' + '\n'.join(rule_text('Q', r) for r in rules) + '\n'
   c = R.compile_pred(text, 'Q')
   out = {'text': text, 'kind': c.kind, 'message': getattr(c, 'message', '')[:300]}
   if c.kind != 'ok':
     return out
   out['sql'] = c.main
-  if len(rules) == 1:
+  if len(rules) == 1 and not op:
     try:
       out['select'] = parse_select(c.main)
     except ValueError as e:
@@ -167,3 +181,43 @@ def run(ck, n):
       ck.disagreement('cq-model-internal', rep, model['sql_rows'], model['denote'])
     if got != exp or real['header'] != ['col%d' % i for i in range(len(rules[0]['head']))]:
       ck.violation('c01:cq:rows', 'conjunctive rule: SQLite returns %s (%s), the rule denotes %s' % (got[:4], real['header'], exp[:4]), rep)
+
+
+def run_agg(ck, n):
+  """aggregating rules of the conjunctive fragment (C02): SQLite's GROUP BY result vs CQ.denoteDistinct"""
+  cases = []
+  for i in range(n):
+    nr = 1 if ck.rng.random() < 0.6 else 2
+    rules = [gen_rule(ck.rng) for _ in range(nr)]
+    w = ck.rng.randint(1, 3)
+    for r in rules:
+      bound = sorted({t['var'] for a in r['body'] for t in a['args'] if 'var' in t})
+      r['head'] = (r['head'] + [{'const': 1}] * w)[:w]
+      # the aggregated value is a variable where possible
+      if bound:
+        r['head'][-1] = {'var': ck.rng.choice(bound)}
+    cases.append((rules, gen_db(ck.rng), ck.rng.choice(sorted(AGG_NAME))))
+  reals = core.pmap(job, cases)
+  models = core.Driver().ask_many([{'op': 'cq', 'rules': rules, 'db': db, 'agg': {'keys': len(rules[0]['head']) - 1, 'op': op}}
+                                   for rules, db, op in cases])
+  for (rules, db, op), real, model in zip(cases, reals, models):
+    rep = {'program': real['text'], 'tables': db}
+    ck.case(['cq-agg', rules, db, op], bool(model.get('group_denote')), ['cq-agg:' + op, 'cq-agg:rules=%d' % len(rules)])
+    if 'error' in model:
+      ck.disagreement('cq-aggregate', rep, real.get('sql', '')[:300], model['error'])
+      continue
+    if real['kind'] != 'ok':
+      ck.violation('c02:cq:%s' % real['kind'], 'aggregating conjunctive rule does not compile/run: %s %s' % (real['kind'], real['message'][:200]), rep)
+      continue
+    ck.corr('cq-groupby-vs-sqlite')
+    got = sorted(map(tuple, real['rows']))
+    exp = sorted(map(tuple, model['group_denote']))
+    if len(rules[0]['head']) == 1 and not exp:
+      # no key columns and no solution: SQL answers one row holding null (0 for Count); the integer-valued
+      # model has no null - this corner is decided by the Sem oracle and Agg.agg_empty_null
+      ck.features['cq-agg:keyless-empty-skipped'] += 1
+      continue
+    if sorted(map(tuple, model['group_sql'])) != exp:
+      ck.disagreement('cq-model-internal', rep, model['group_sql'], model['group_denote'])
+    if got != exp:
+      ck.violation('c02:cq:rows:%s' % op, 'aggregating rule (%s): SQLite returns %s, the rule denotes %s' % (op, got[:4], exp[:4]), rep)
